@@ -102,9 +102,20 @@ func (ex *Exec) luaFromGo(v Value, li *luaInterp) LVal {
 			if it, ok := x.intTerm(); ok {
 				return LNumV{it}
 			}
-			ex.unsupported("non-integral float passed to Lua")
+			if x.f != x.f {
+				ex.unsupported("opaque (symbolic) float passed to Lua")
+			}
+			return LFltV{x.f}
 		case *Term:
 			return LNumV{x}
+		}
+	case "github.com/yuin/gopher-lua.LFunction":
+		if p, ok := iv.v.(PtrV); ok && p.c != nil {
+			if nv, ok := p.c.val.(NativeV); ok {
+				if f, ok := nv.v.(*LFuncV); ok {
+					return f
+				}
+			}
 		}
 	case "github.com/yuin/gopher-lua.LNilType":
 		return LNilV{}
@@ -124,6 +135,80 @@ func (ex *Exec) luaFromGo(v Value, li *luaInterp) LVal {
 		}
 	}
 	ex.unsupported("lua.LValue of dynamic type " + iv.t.String() + " handed to Lua")
+	return nil
+}
+
+// luaGoTypes resolves the gopher-lua value types and the lua.LNil singleton once per engine.
+type luaGoTypes struct {
+	lbool, lnumber, lstring, ltable, lfunction types.Type
+	pkg                                        *ssa.Package
+}
+
+var luaTypesMu sync.Mutex
+
+func (ex *Exec) luaTypes() *luaGoTypes {
+	luaTypesMu.Lock()
+	defer luaTypesMu.Unlock()
+	if ex.eng.luaTypes != nil {
+		return ex.eng.luaTypes
+	}
+	pkg := ex.prog.ImportedPackage("github.com/yuin/gopher-lua")
+	if pkg == nil {
+		ex.unsupported("gopher-lua is not part of the loaded program")
+	}
+	named := func(n string) types.Type {
+		m := pkg.Type(n)
+		if m == nil {
+			ex.unsupported("gopher-lua type " + n + " not found")
+		}
+		return m.Type()
+	}
+	lt := &luaGoTypes{lbool: named("LBool"), lnumber: named("LNumber"), lstring: named("LString"),
+		ltable: types.NewPointer(named("LTable")), lfunction: types.NewPointer(named("LFunction")), pkg: pkg}
+	ex.eng.luaTypes = lt
+	return lt
+}
+
+// luaToGo hands an interpreter value to Go code as the lua.LValue gopher-lua would hand out: the dynamic type is the
+// real one (type switches and method calls of the repository's code dispatch on it), lua.LNil is the package's
+// singleton, a table keeps its identity (one cell per table).
+func (ex *Exec) luaToGo(v LVal) Value {
+	lt := ex.luaTypes()
+	switch x := v.(type) {
+	case LNilV, nil:
+		g := lt.pkg.Var("LNil")
+		if g == nil {
+			ex.unsupported("gopher-lua.LNil not found")
+		}
+		return ex.load(ex.globalCell(g))
+	case LBoolV:
+		return IfaceV{t: lt.lbool, v: x.t}
+	case LStrV:
+		return IfaceV{t: lt.lstring, v: x.t}
+	case LNumV:
+		return IfaceV{t: lt.lnumber, v: FloatV{it: x.t}}
+	case LFltV:
+		return IfaceV{t: lt.lnumber, v: FloatV{f: x.f}}
+	case LRatV:
+		li := &luaInterp{ex: ex}
+		return ex.luaToGo(wrapFloat(li.toFloat(x)))
+	case *LTableV:
+		if ex.luaCells == nil {
+			ex.luaCells = map[*LTableV]*Cell{}
+		}
+		c := ex.luaCells[x]
+		if c == nil {
+			c = ex.newCell(types.Typ[types.Int])
+			c.val = NativeV{x}
+			ex.luaCells[x] = c
+		}
+		return IfaceV{t: lt.ltable, v: PtrV{c}}
+	case *LFuncV:
+		c := ex.newCell(types.Typ[types.Int])
+		c.val = NativeV{x}
+		return IfaceV{t: lt.lfunction, v: PtrV{c}}
+	}
+	ex.unsupported(fmt.Sprintf("Lua value of type %T handed to Go", v))
 	return nil
 }
 
@@ -572,7 +657,7 @@ func init() {
 		if len(box.ret) > 0 {
 			v = box.ret[len(box.ret)-1]
 		}
-		return IfaceV{t: types.Typ[types.UnsafePointer], v: NativeV{luaValueBox{v}}}
+		return ex.luaToGo(v)
 	})
 	add("(*github.com/yuin/gopher-lua.LState).Close", icZero)
 	// gopher-lua table construction from Go (used by luamanager.decodeValue, which runs from its SSA)
@@ -669,17 +754,71 @@ func init() {
 		}
 		return TupleV{SliceV{str: ex.fresh("mergepatch", SStr)}, IfaceV{}}
 	})
-	add(repoMod+"/pkg/util/luamanager.Encode", func(ex *Exec, fr *frame, fn *ssa.Function, args []Value, pos tokenPos) Value {
-		iv := args[0].(IfaceV)
-		if iv.t == nil {
-			return TupleV{SliceV{}, ex.newError(mkStr("cannot encode nil"))}
+	// luamanager.Encode / jsonValue.MarshalJSON run from their SSA (json.go: jsonEncodeViaMethod); what they ask of a
+	// Lua value is answered here
+	typeCode := func(code int64) interceptFn {
+		return func(ex *Exec, fr *frame, fn *ssa.Function, args []Value, pos tokenPos) Value { return mkInt(code) }
+	}
+	add("(github.com/yuin/gopher-lua.LBool).Type", typeCode(luaTBool))
+	add("(github.com/yuin/gopher-lua.LNumber).Type", typeCode(luaTNumber))
+	add("(github.com/yuin/gopher-lua.LString).Type", typeCode(luaTString))
+	add("(*github.com/yuin/gopher-lua.LNilType).Type", typeCode(luaTNil))
+	add("(*github.com/yuin/gopher-lua.LTable).Type", typeCode(luaTTable))
+	add("(*github.com/yuin/gopher-lua.LFunction).Type", typeCode(luaTFunc))
+	add("(github.com/yuin/gopher-lua.LString).String", func(ex *Exec, fr *frame, fn *ssa.Function, args []Value, pos tokenPos) Value {
+		return asTerm(args[0])
+	})
+	add("(github.com/yuin/gopher-lua.LValueType).String", func(ex *Exec, fr *frame, fn *ssa.Function, args []Value, pos tokenPos) Value {
+		c, ok := asTerm(args[0]).constInt()
+		names := []string{"nil", "boolean", "number", "string", "function", "userdata", "thread", "table", "channel"}
+		if !ok || c < 0 || int(c) >= len(names) {
+			ex.unsupported("LValueType.String of a symbolic type code")
 		}
-		box := iv.v.(NativeV).v.(luaValueBox)
-		n, e := ex.luaToJNode(box.v, 0)
-		if e != "" {
-			return TupleV{SliceV{}, ex.newError(mkStr(e))}
+		return mkStr(names[c])
+	})
+	add("(*github.com/yuin/gopher-lua.LTable).Len", func(ex *Exec, fr *frame, fn *ssa.Function, args []Value, pos tokenPos) Value {
+		return mkInt(luaLI(ex).length(luaTableOf(ex, fr, args[0], pos)))
+	})
+	// Next: gopher-lua walks the array part (1..n) first, then the other keys in the order they were first set
+	add("(*github.com/yuin/gopher-lua.LTable).Next", func(ex *Exec, fr *frame, fn *ssa.Function, args []Value, pos tokenPos) Value {
+		t := luaTableOf(ex, fr, args[0], pos)
+		li := luaLI(ex)
+		n := int(li.length(t))
+		var order []int
+		used := make([]bool, len(t.keys))
+		for i := 1; i <= n; i++ {
+			for j, k := range t.keys {
+				if kn, ok := k.(LNumV); ok && !used[j] {
+					if c, isC := kn.t.constInt(); isC && c == int64(i) {
+						order = append(order, j)
+						used[j] = true
+						break
+					}
+				}
+			}
 		}
-		return TupleV{SliceV{str: ex.newToken(n)}, IfaceV{}}
+		for j := range t.keys {
+			if !used[j] {
+				order = append(order, j)
+			}
+		}
+		pair := func(pos int) Value {
+			if pos >= len(order) {
+				return TupleV{ex.luaToGo(LNilV{}), ex.luaToGo(LNilV{})}
+			}
+			return TupleV{ex.luaToGo(t.keys[order[pos]]), ex.luaToGo(t.vals[order[pos]])}
+		}
+		key := ex.luaFromGo(args[1], li)
+		if _, isNil := key.(LNilV); isNil {
+			return pair(0)
+		}
+		for pos, j := range order {
+			if ex.branch(li.keyEq(t.keys[j], key)) {
+				return pair(pos + 1)
+			}
+		}
+		ex.raise(fr, pos, "invalid key to 'next'")
+		return nil
 	})
 }
 
